@@ -140,7 +140,7 @@ Lemma dec_str_np : np (@dec_str T).
 Proof. intros j. destruct j; discriminate. Qed.
 Lemma dec_date_np : np (@dec_date T).
 Proof. intros j. destruct j; discriminate. Qed.
-Lemma nd_scan_np {A} (d : json -> outcome A) : np d -> forall kvs v dim data, nd_scan d kvs v dim data <> Panic.
+Lemma nd_scan_np {A} rank (d : json -> outcome A) : np d -> forall kvs v dim data, nd_scan rank d kvs v dim data <> Panic.
 Proof.
   intros Hd. induction kvs as [|[[k|z] x] kvs IH]; intros v dim data; cbn [nd_scan]; try discriminate.
   - destruct (negb v); [discriminate|]. destruct data, dim; discriminate.
@@ -149,15 +149,17 @@ Proof.
     + destruct (name_eqb k k_data).
       * apply bind_np; [apply dec_seq_np; auto|]. intros; apply IH.
       * destruct (name_eqb k k_dim); [|discriminate].
-        apply bind_np; [apply dec_seq_np; apply dec_uint_np|]. intros; apply IH.
+        apply bind_np; [apply dec_seq_np; apply dec_uint_np|]. intros di _.
+        destruct (Nat.eqb (List.length di) rank); [apply IH | discriminate].
 Qed.
-Lemma nd_raw_np {A} (d : json -> outcome A) : np d -> np (nd_raw d).
+Lemma nd_raw_np {A} rank (d : json -> outcome A) : np d -> np (nd_raw rank d).
 Proof.
   intros Hd j. unfold nd_raw. destruct j as [| | | | | |l|kvs]; try discriminate.
   - destruct l as [|jv [|jdim [|jdata [|? ?]]]]; try discriminate;
       try (apply bind_np; [apply dec_uint_np | intros; discriminate]).
     apply bind_np; [apply dec_uint_np|]. intros ver _. destruct (negb (ver =? 1)); [discriminate|].
-    apply bind_np; [apply dec_seq_np; apply dec_uint_np|]. intros.
+    apply bind_np; [apply dec_seq_np; apply dec_uint_np|]. intros di _.
+    destruct (negb (Nat.eqb (List.length di) rank)); [discriminate|].
     apply bind_np; [apply dec_seq_np; auto|]. intros. discriminate.
   - apply nd_scan_np; auto.
 Qed.
@@ -620,11 +622,13 @@ Proof.
     - destruct lj as [|jv [|jdim [|jdata [|? ?]]]]; try discriminate;
         try (apply bind_ok in R; destruct R as [? [_ R]]; discriminate).
       apply bind_ok in R. destruct R as [ver [_ R]]. destruct (negb (ver =? 1)); [discriminate|].
-      apply bind_ok in R. destruct R as [di' [_ R]]. apply bind_ok in R. destruct R as [da' [Ed R]].
+      apply bind_ok in R. destruct R as [di' [_ R]].
+      destruct (negb (Nat.eqb (List.length di') 1)); [discriminate|].
+      apply bind_ok in R. destruct R as [da' [Ed R]].
       injection R as _ <-. unfold dec_seq in Ed. destruct jdata; try discriminate.
       intros x Hx. destruct (omapM_ok_in _ _ _ Ed x Hx) as [jx [_ Ex]]. eauto.
     - assert (S : forall kvs v dim data, (forall l0, data = Some l0 -> forall x, In x l0 -> exists jx, d jx = Ok x) ->
-                 forall di0 da0, nd_scan d kvs v dim data = Ok (di0, da0) -> forall x, In x da0 -> exists jx, d jx = Ok x).
+                 forall di0 da0, nd_scan 1 d kvs v dim data = Ok (di0, da0) -> forall x, In x da0 -> exists jx, d jx = Ok x).
       { clear. induction kvs as [|[[k|z] xv] kvs IH]; intros v dim data Hdata di0 da0 E; cbn [nd_scan] in E; try discriminate.
         - destruct (negb v); [discriminate|]. destruct data as [dl|]; [|discriminate]. destruct dim; [|discriminate].
           injection E as _ <-. eapply Hdata; eauto.
@@ -635,7 +639,8 @@ Proof.
               intros l0 [= <-] x Hx. unfold dec_seq in Ed. destruct xv; try discriminate.
               destruct (omapM_ok_in _ _ _ Ed x Hx) as [jx [_ Ex]]. eauto.
             * destruct (name_eqb k k_dim); [|discriminate].
-              apply bind_ok in E. destruct E as [dl [_ E]]. eapply IH; eauto. }
+              apply bind_ok in E. destruct E as [dl [_ E]].
+              destruct (Nat.eqb (List.length dl) 1); [|discriminate]. eapply IH; eauto. }
       eapply S; [|exact R]. intros l0 C. discriminate. }
   exact G.
 Qed.
